@@ -583,6 +583,7 @@ func writeKeyCallbacks(repo string, sb *strings.Builder, funcs map[string]kyFn, 
 	f := parseFile(filepath.Join(repo, "x", "stream", "keeper", "query_streams.go"))
 	sb.WriteString("(* ---- x/stream/keeper/query_streams.go: prefix stores and callbacks of the list queries ---- *)\n")
 	var names []string
+	var skeletons []string
 	for _, d := range f.Decls {
 		fd, ok := d.(*ast.FuncDecl)
 		if !ok || fd.Body == nil {
@@ -617,6 +618,7 @@ func writeKeyCallbacks(repo string, sb *strings.Builder, funcs map[string]kyFn, 
 			continue
 		}
 		name := fd.Name.Name
+		skeletons = append(skeletons, fmt.Sprintf("(\"%s\", \"%s\")", name, skeletonDigest(fd)))
 		mk := func(body ast.Node) (*kyTrans, []string) {
 			k := &kyTrans{mod: "stream", env: map[string]kyT{}, consts: consts, funcs: funcs}
 			var used []string
@@ -683,5 +685,7 @@ func writeKeyCallbacks(repo string, sb *strings.Builder, funcs map[string]kyFn, 
 		q = append(q, "\""+n+"\"")
 	}
 	sb.WriteString(fmt.Sprintf("Definition stream_list_queries : list String.string := [%s]%%string.\n\n", strings.Join(q, "; ")))
+	// the handlers around the callbacks: a digest of each with the callback bodies blanked
+	sb.WriteString(fmt.Sprintf("Definition stream_list_query_skeletons : list (String.string * String.string) :=\n  [%s]%%string.\n\n", strings.Join(skeletons, ";\n   ")))
 	return untranslated
 }
